@@ -928,14 +928,21 @@ fn find_deferred<F>(predicate: &Predicate, is_deferred: F) -> HashSet<u16>
 where
     F: Fn(&essential_types::predicate::Node) -> bool,
 {
+    // Start from the nodes that are deferred in their own right and follow the edges, so
+    // that every descendant is deferred whatever the numbering of the nodes.
     let mut deferred = HashSet::new();
-    for (ix, node) in predicate.nodes.iter().enumerate() {
-        if is_deferred(node) {
-            deferred.insert(ix as u16);
-        }
-        if deferred.contains(&(ix as u16)) {
-            for child in predicate.node_edges(ix).expect("Already checked") {
-                deferred.insert(*child);
+    let mut work: Vec<u16> = predicate
+        .nodes
+        .iter()
+        .enumerate()
+        .filter(|(_, node)| is_deferred(node))
+        .map(|(ix, _)| ix as u16)
+        .collect();
+    while let Some(ix) = work.pop() {
+        if deferred.insert(ix) {
+            // An edge may point past the last node: there is nothing to follow then.
+            if let Some(children) = predicate.node_edges(ix as usize) {
+                work.extend(children);
             }
         }
     }
